@@ -215,6 +215,38 @@ def check_index_spaces(chk, tus, it, tabs):
                site + ':prefix')
 
 
+def check_import_designation(chk, tus, rule='R04.8'):
+    """R04.8: call_indirect reaches the function the module designates only if an imported table - and an imported global giving an
+    element segment its offset - is bound to the import the module names: the resolve("<module>", "<field>") call emitted for it
+    denotes, read as C string literals, exactly the two names of the import, for names whose bytes need escaping directly followed by
+    characters that could continue the escape (an octal digit after '?' or a control byte, a hex digit after a byte >= 0x80).
+    Decided by evaluating the translator's literal writer on concrete names and parsing the result with the C literal grammar
+    (machinery shared with C11 R11.7)."""
+    from . import c06, c11
+    from .. import modules as M
+    import re
+    it = c06.make(tus)
+    for name in c11.NASTY + ['tbl?1', '\x02' + '7', 'a?' + '0b', '\x1f' + '00']:
+        mk = lambda: M.build(it, types=[([], [])], func_imports=[], functions=[0], table_imports=[('t' + name, name, 2, 4, False)],
+                             global_imports=[(name, 'g' + name, 'i32', False)], exports=[('f', c06.KIND_FUNC, 0)])
+        text = c06.inits_text(it, mk, raw=True)
+        label = repr(name)
+        found = 0
+        for m in re.finditer(r'(?s)=\s*\([^()]*\)\s*resolve\((.*?)\);\n', text):
+            inner = m.group(1)
+            if inner.startswith('const char'):
+                continue
+            found += 1
+            parsed = c11._split_two_literals(inner)
+            want = [('t' + name, name), (name, 'g' + name)]
+            ok = parsed is not None and (parsed[0].decode('latin-1'), parsed[1].decode('latin-1')) in want
+            chk.expect(ok, rule, 'import-designation[%s]#%d' % (label, found),
+                       'the imported table / global named %s is bound with resolve(%s), which does not denote the module and field name of '
+                       'the import: the instance is wired to a different (or no) host object, so element segments and call_indirect do not '
+                       'reach the designated function' % (label, inner[:80]), 'wasmCWriteFileStringLiteral:import-designation')
+        chk.require(found == 2, 'expected 2 resolve(...) calls for the table and global import named %s, found %d' % (label, found))
+
+
 def run(chk):
     chk.explanation = (
         'The call emitters are partially evaluated for every arity 0..N with and without result at two stack heights and the emitted '
@@ -271,6 +303,8 @@ def run(chk):
     # behind (a void function may end with operands still on the stack); rule shared with C03 R03.2 / C09 R09.10
     c03.check_function_sequence(chk, rule='R04.7')
     chk.floor('R04.7', 20)
+    check_import_designation(chk, tus)
+    chk.floor('R04.8', 30)
     chk.floor('R04.1', 40)
     chk.floor('R04.2', 12)
     chk.floor('R04.3', 20)
